@@ -226,7 +226,14 @@ def case_random(ctx, rng, wd):
         w = Lmin / 2 / float(rng.uniform(6, 14))
         if abs(Lmin / 2 / w - round(Lmin / 2 / w)) < 1e-6:
             w *= 1.001
-        ok, sc = ctx.call("boo_2d.spatial_corr", b.spatial_corr, w, "", data=info)
+        gfile = os.path.join(wd, "g_l.csv") if rng.random() < 0.3 else ""
+        ok, sc = ctx.call("boo_2d.spatial_corr", b.spatial_corr, w, gfile, data=info)
+        if ok and gfile:
+            import pandas as pd
+            back = pd.read_csv(gfile)
+            ctx.check("spatial_corr", back.shape == sc.shape and bool(np.all(np.abs(back.values - sc.values) <= 0.5000001e-8 + 1e-12 * np.abs(sc.values))),
+                      "boo_2d.spatial_corr/csv", "CSV differs from the returned frame beyond %.8f", info)
+            os.remove(gfile)
         if ok:
             nb = int(Lmin / 2.0 / w)
             V = abs(np.linalg.det(H))
